@@ -22,7 +22,10 @@ RULE = (
 EXPLANATION = (
     "Lean theorems C12_* (retry = tentative*mult^r, exhaustion and non-adaptive refusal are errors, the documented "
     "rule after warm-up, bounds 0 < dt <= dt_max by induction over the run, fixed step when not adaptive) for every "
-    "refusal oracle; the real update is driven step by step and compared with the model replayed on the same answers."
+    "refusal oracle; the real update is driven step by step and compared with the model replayed on the same answers. "
+    "The rule is also evaluated on a history measured by the harness from the states entering and leaving each update "
+    "(screened runs included), and a source pin states that the history is appended once per update, outside the "
+    "screening loop (C12_bridge_record_site)."
 )
 ASSUMPTIONS = ["dt_used compared bit for bit; proposed step within 4 ulp (np.mean sums pairwise)"]
 
@@ -117,10 +120,14 @@ def eval_run(ctx, dev, kw, st, kind, nsteps, with_model=True):
         sizes = {"dt": 1}
         if solver.probe_points is not None:
             sizes.update(mu=len(solver.probe_points), theta=len(solver.probe_points))
+        if st.get("include_screening"):
+            sizes["screening_iterations"] = 1
         rs = RunningState(sizes, 1)
         dt_prev = opts.dt_init
         t = 0.0
         used, tent, dvals = [], [], []
+        own_d = []  # max |change of |psi|^2| of every completed solve step, measured here from the states going in and out
+        screening = bool(st.get("include_screening"))
         raised_at = None
         dt_max = opts.dt_max if opts.adaptive else opts.dt_init
         for i in range(nsteps):
@@ -133,8 +140,10 @@ def eval_run(ctx, dev, kw, st, kind, nsteps, with_model=True):
                 raised_at = i
                 break
             lg.end()
+            old_sq_own = np.abs(np.asarray(values[0])) ** 2
             dt, *values = res
             dt = float(dt)
+            own_d.append(float(np.abs(np.abs(np.asarray(values[0])) ** 2 - old_sq_own).max()))
             used.append(dt)
             tent.append(float(solver.tentative_dt))
             dvals.append(float(solver.d_psi_sq_vals[-1]) if opts.adaptive else 0.0)
@@ -149,7 +158,7 @@ def eval_run(ctx, dev, kw, st, kind, nsteps, with_model=True):
                 fail("fixed-step", f"adaptivity off but step {i} used dt={dt} != dt_init={opts.dt_init}", step=i, dt=dt)
             # retry: attempts are tentative * mult^j, all but the last refused
             exp = tent_before
-            for j, (adt, refused) in enumerate(att):
+            for j, (adt, refused) in enumerate(att if not screening else ()):  # (a screened step evaluates the update once per iteration)
                 if V.ulp_diff(adt, exp) > 2:
                     fail("retry-sequence", f"step {i}: attempt {j} used dt={adt}, expected tentative*mult^{j}={exp}", step=i, attempt=j)
                     break
@@ -159,7 +168,7 @@ def eval_run(ctx, dev, kw, st, kind, nsteps, with_model=True):
                 exp = exp * opts.adaptive_time_step_multiplier
             if att and dt != att[-1][0]:
                 fail("reported-dt-not-used", f"step {i}: the step reports dt={dt} but the accepted attempt used dt={att[-1][0]}", step=i, reported=dt, used=att[-1][0])
-            if len(att) > st["max_solve_retries"] + 2:
+            if len(att) > st["max_solve_retries"] + 2 and not screening:
                 fail("retries-exceeded", f"step {i}: {len(att)} attempts with max_solve_retries={st['max_solve_retries']}", step=i)
             # documented rule after the warm-up window
             if opts.adaptive and i > opts.adaptive_window:
@@ -170,6 +179,16 @@ def eval_run(ctx, dev, kw, st, kind, nsteps, with_model=True):
                 ctx.tol("proposal_vs_documented_rule(ulp)", V.ulp_diff(tent[-1], want), 4)
                 if V.ulp_diff(tent[-1], want) > 4:
                     fail("rule", f"step {i}: proposed step {tent[-1]} but the documented rule gives {want}", step=i, got=tent[-1], want=want)
+                # the same with delta = mean over the last w SOLVE STEPS of the change measured here from the states
+                # (|psi_new|^2 differs from the root of the quadratic by rounding only: bracket the rule by a relative 1e-5 + 1e-12 in delta; a window over other entries changes it by factors)
+                d_own = float(np.mean(own_d[-w:]))
+                if screening and tent[-1] < dt_max:
+                    ctx.__dict__["_c12_uncapped"] = ctx.__dict__.get("_c12_uncapped", 0) + 1
+                lo_ = min(0.5 * (dt + opts.dt_init / max(1e-10, d_own * (1 + 1e-5) + 1e-12)), dt_max) * (1 - 1e-9)
+                hi_ = min(0.5 * (dt + opts.dt_init / max(1e-10, d_own * (1 - 1e-5) - 1e-12)), dt_max) * (1 + 1e-9)
+                if not (lo_ <= tent[-1] <= hi_):
+                    fail("rule:window-of-solve-steps", f"step {i}: proposed step {tent[-1]} but min((dt + dt_init/delta)/2, dt_max) with delta the mean change of |psi|^2 over the last {w} solve steps "
+                         f"({d_own:.6e}) is in [{lo_}, {hi_}]", step=i, got=tent[-1], want=[lo_, hi_], window=w)
             elif tent[-1] != tent_before:
                 fail("warmup", f"step {i}: tentative step changed during warm-up / with adaptivity off", step=i)
             dt_prev = dt
@@ -181,7 +200,9 @@ def eval_run(ctx, dev, kw, st, kind, nsteps, with_model=True):
         if raised_at is not None:
             ctx.count("runs_raised")
             att = lg.attempts[-1]
-            genuine = len(att) >= (st["max_solve_retries"] + 2 if st["adaptive"] else 1) and all(a[1] for a in att)
+            need = st["max_solve_retries"] + 2 if st["adaptive"] else 1
+            # (a screened step evaluates the update once per iteration: the refusals that exhaust the retries are the last ones)
+            genuine = len(att) >= need and all(a[1] for a in (att[-need:] if screening else att))
             if not genuine:
                 fail("spurious-raise", f"step {raised_at}: RuntimeError after attempts {att}", step=raised_at)
     # ---- correspondence with the Lean controller ----
@@ -228,6 +249,20 @@ def eval_run(ctx, dev, kw, st, kind, nsteps, with_model=True):
     return first
 
 
+def screened(ctx):
+    """the adaptive rule in screened runs (every solve step evaluates the psi update once per screening iteration):
+    the window still counts solve steps"""
+    dev = zoo.make_device("ring", ctx.rng, max_edge_length=1.0, lam=0.5)
+    first = None
+    for st in (dict(dt_init=1e-3, dt_max=1e3, adaptive=True, adaptive_window=2, adaptive_time_step_multiplier=0.25, max_solve_retries=3, include_screening=True, screening_tolerance=1e-3),
+               dict(dt_init=5e-4, dt_max=1e3, adaptive=True, adaptive_window=3, adaptive_time_step_multiplier=0.5, max_solve_retries=2, include_screening=True, screening_tolerance=1e-2)):
+        first = first or eval_run(ctx, dev, dict(applied_vector_potential=0.7), st, "none", 12 if ctx.quick else 30, with_model=False)
+        ctx.count("drive:screened")
+        ctx.count("screened_proposals_below_dt_max", int(ctx.__dict__.get("_c12_uncapped", 0)))
+        ctx.__dict__["_c12_uncapped"] = 0
+    return first
+
+
 def devices(ctx):
     dev = zoo.make_device("bar", ctx.rng, max_edge_length=1.0)
     weak = dict(applied_vector_potential=0.3, terminal_currents={"source": 2.0, "drain": -2.0})
@@ -267,6 +302,7 @@ def seeded_bounds(ctx):
 
 def run(ctx):
     seeded_bounds(ctx)
+    screened(ctx)
     dev, drives = devices(ctx)
     nsteps = 14 if ctx.quick else 40
     sts = settings(ctx.rng, ctx.quick)
@@ -281,6 +317,9 @@ def run(ctx):
 
 
 def search(ctx):
+    f = screened(ctx)
+    if f:
+        return f
     dev, drives = devices(ctx)
     ctx.rng = np.random.default_rng(ctx.seed + 31337)
     for st in settings(ctx.rng, False):
